@@ -178,6 +178,8 @@ def body(run: Run, replay):
         if orders is None:
             return
         freq = np.array([5.0, 11.0, 0.0, 23.0, 37.0, 52.0])[:LF] if LF <= 6 else np.linspace(1, 60, LF)
+        # tasks with IDENTICAL inputs (repeated frequencies, adjacent and not): RowVal(j) may coincide for different j
+        freq_rep = np.array([11.0, 23.0, 23.0, 11.0, 37.0, 37.0])[:LF]
         serial = {}
         njobs = 0
         for ci, opts in enumerate(cases):
@@ -186,6 +188,8 @@ def body(run: Run, replay):
             else:
                 pick = orders if LF <= 4 else rnd.sample(orders, 12)
             key = json.dumps(opts, sort_keys=True)
+            if ci % 3 == 2:
+                freq, freq_rep = freq_rep, freq     # every third option point runs on the repeated-frequency vector
             ref = srsmod.srs(sig, sr, freq, 12.5, parallel="no", peak="abs", **opts)
             refb = flat(np, ref)
             for order in pick:
@@ -202,6 +206,8 @@ def body(run: Run, replay):
                         break
                 if len(run.violations) >= 5:
                     return
+            if ci % 3 == 2:
+                freq, freq_rep = freq_rep, freq
             if ci < 2:
                 run.sample({"fn": "srs", "opts": opts, "W": W, "forced_completion_orders": pick})
         # other peak statistics and 1-D packaging on a few orders
@@ -233,8 +239,8 @@ def body(run: Run, replay):
         orders, lang = model(run, cfg)
         if orders is None:
             return
-        freq = np.array([8.0, 14.0, 22.0, 31.0, 40.0])[:LF]
-        for respt in ("absacce", "pvelo"):
+        for respt, freq in (("absacce", np.array([8.0, 14.0, 22.0, 31.0, 40.0])[:LF]), ("pvelo", np.array([8.0, 14.0, 22.0, 31.0, 40.0])[:LF]),
+                            ("absacce", np.array([14.0, 22.0, 22.0, 14.0, 31.0])[:LF]), ("pvelo", np.array([22.0, 22.0, 31.0, 31.0, 8.0])[:LF])):
             kw = dict(resp=respt, nbins=12, hpfilter=None, winends=None, rolloff="none", T0=20.0)
             ref = fdemod.fdepsd(fsig, 200.0, freq, 15.0, parallel="no", **kw)
             refb = flat_fde(np, ref)
